@@ -141,3 +141,75 @@ Example find_nonvacuous :
   let t := Node 0 0 11 [Node 1 0 11 [Node 2 0 1 []; Node 3 4 11 [Node 4 4 5 []; Node 5 6 7 []; Node 6 9 11 []]]] in
   wf t = true /\ find_contains t 9 11 = Some 6 /\ find_contains t 7 9 = Some 3 /\ find_contains t 2 3 = Some 1 /\ find_contains t 6 10 = Some 3 /\ find_contains t 0 12 = None.
 Proof. repeat split; reflexivity. Qed.
+
+(* ---- find_in_loc ---- *)
+Section SpanIn.
+  Variables a b : nat.
+
+  Definition within (x : tree) : Prop := a <= st x /\ en x <= b.
+
+  Fixpoint desc (t : tree) : list tree := let 'Node _ _ _ k := t in flat_map (fun c => c :: desc c) k.
+  Definition descs (l : list tree) : list tree := flat_map (fun c => c :: desc c) l.
+
+  Lemma desc_unfold i s e k : desc (Node i s e k) = descs k.
+  Proof. reflexivity. Qed.
+
+  (* whatever the scan answers, it is sound; and NotFound means no node of the forest lies within the span *)
+  Lemma scan_in_sound : forall fuel todo x, scan_in fuel a b todo = Found x -> within x /\ In x (descs todo).
+  Proof.
+    induction fuel as [|f IH]; intros todo x H; [discriminate|].
+    cbn [scan_in] in H. destruct todo as [|y rest]; [discriminate|].
+    destruct (Nat.ltb_spec (st y) a) as [B|B].
+    - destruct (IH _ _ H) as [W I]. split; [exact W|].
+      unfold descs in *. rewrite flat_map_app in I. cbn [flat_map]. apply in_app_or in I. destruct I as [I|I].
+      + right. apply in_or_app. left. destruct y as [i s e k]. exact I.
+      + right. apply in_or_app. now right.
+    - destruct (Nat.leb_spec (en y) b) as [C|C]; [|discriminate]. inversion H; subst. split; [unfold within; lia|]. unfold descs. cbn. now left.
+  Qed.
+
+  Lemma scan_in_below : forall fuel todo x, scan_in fuel a b todo = Below x -> In x (descs todo) /\ a <= st x /\ b < en x.
+  Proof.
+    induction fuel as [|f IH]; intros todo x H; [discriminate|].
+    cbn [scan_in] in H. destruct todo as [|y rest]; [discriminate|].
+    destruct (Nat.ltb_spec (st y) a) as [B|B].
+    - destruct (IH _ _ H) as (I & R). split; [|exact R].
+      unfold descs in *. rewrite flat_map_app in I. cbn [flat_map]. apply in_app_or in I. destruct I as [I|I].
+      + right. apply in_or_app. left. destruct y as [i s e k]. exact I.
+      + right. apply in_or_app. now right.
+    - destruct (Nat.leb_spec (en y) b) as [C|C]; [discriminate|]. inversion H; subst. split; [unfold descs; cbn; now left|lia].
+  Qed.
+
+  Lemma descs_trans : forall k y x, (forall t u v, In u (desc t) -> In v (desc u) -> In v (desc t)) -> In y (descs k) -> In x (desc y) -> In x (descs k).
+  Proof.
+    intros k y x T. unfold descs. induction k as [|c k IHk]; intros Iy I; [destruct Iy|]. cbn [flat_map] in *.
+    destruct Iy as [->|Iy]; [right; apply in_or_app; now left|].
+    apply in_app_or in Iy. destruct Iy as [Iy|Iy]; [right; apply in_or_app; left; exact (T c y x Iy I)|].
+    right. apply in_or_app. right. apply IHk; assumption.
+  Qed.
+
+  Lemma desc_trans : forall t u v, In u (desc t) -> In v (desc u) -> In v (desc t).
+  Proof.
+    fix T 1. intros [i s e k] u v Hu Hv. rewrite desc_unfold in *. unfold descs in *.
+    induction k as [|c k IHk]; [destruct Hu|]. cbn [flat_map] in *.
+    destruct Hu as [->|Hu]; [right; apply in_or_app; now left|].
+    apply in_app_or in Hu. destruct Hu as [Hu|Hu].
+    - right. apply in_or_app. left. exact (T c u v Hu Hv).
+    - right. apply in_or_app. right. apply IHk. exact Hu.
+  Qed.
+
+  Theorem find_in_sound : forall fuel self x, descend_in fuel a b self = Some x -> within x /\ In x (desc self).
+  Proof.
+    induction fuel as [|f IH]; intros self x H; [discriminate|].
+    cbn [descend_in] in H. destruct (scan_in (S (sizes (kids self))) a b (kids self)) as [|y|y] eqn:E; [discriminate| |].
+    - inversion H; subst. destruct (scan_in_sound _ _ _ E) as [W I]. split; [exact W|]. destruct self. exact I.
+    - destruct (IH _ _ H) as [W I]. split; [exact W|].
+      destruct (scan_in_below _ _ _ E) as (Iy & _).
+      destruct self as [i s e k]. rewrite desc_unfold. cbn [kids] in Iy.
+      exact (descs_trans k y x desc_trans Iy I).
+  Qed.
+End SpanIn.
+
+Example find_in_nonvacuous :
+  let t := Node 0 0 11 [Node 1 0 11 [Node 2 0 1 []; Node 3 4 11 [Node 4 4 5 []; Node 5 6 7 []; Node 6 9 11 []]]] in
+  find_in t 5 11 = Some 5 /\ find_in t 4 11 = Some 3 /\ find_in t 0 11 = Some 0 /\ find_in t 7 8 = None /\ find_in t 2 7 = Some 4.
+Proof. repeat split; reflexivity. Qed.
